@@ -120,3 +120,11 @@ Proof.
   destruct (add_transition_lt p from (mkT lo hi to) H) as (p' & E & L). rewrite E.
   destruct (IH p' from to) as (p'' & E' & L'); [lia|]. exists p''. split; [exact E'|lia].
 Qed.
+
+Lemma In_nth_n {A} (l : list A) x : In x l -> exists i, nth_n l i = Some x.
+Proof.
+  induction l as [|y l IH]; intros H; [destruct H|]. destruct H as [->|H].
+  - exists 0. reflexivity.
+  - destruct (IH H) as [i E]. exists (N.succ i). rewrite nth_n_cons.
+    destruct (N.eqb_spec (N.succ i) 0); [lia|]. rewrite N.pred_succ. exact E.
+Qed.
